@@ -16,11 +16,26 @@ func isOOBCheck(i *Instruction) bool {
 		(i.u1 == uint64(wazevoapi.ExitCodeMemoryOutOfBounds) || i.u1 == uint64(wazevoapi.ExitCodeTableOutOfBounds))
 }
 
-// oobShape: the condition of a bounds check is the latest comparison, which is  length <u (a + b)  with
-// a + b the latest addition.
+// oobShape: the condition of a bounds check is the latest comparison, which is either  length <u (a + b)
+// with a + b the latest addition (range checks), or  index >=u length  (table element access).
 func oobShape(i *Instruction) bool {
-	return int(i.v2) == gr("icmpRet") && gr("icmpC") == int(IntegerCmpCondUnsignedLessThan) && gr("icmpY") == gr("iaddRet")
+	return int(i.v2) == gr("icmpRet") &&
+		((gr("icmpC") == int(IntegerCmpCondUnsignedLessThan) && gr("icmpY") == gr("iaddRet")) ||
+			gr("icmpC") == int(IntegerCmpCondUnsignedGreaterThanOrEqual))
 }
+
+// ExitsWith / ExitCmp*: how many conditional exits with a given exit code have been inserted, and - for the
+// latest of them - the comparison that guards it (ghost maps keyed by exit code).
+func ExitsWith(code wazevoapi.ExitCode) uint64 { return verif_ghost_map("M:exN", uint64(code)) }
+func ExitGuardedByCmp(code wazevoapi.ExitCode) bool {
+	return verif_ghost_map("M:exViaCmp", uint64(code)) == 1
+}
+func ExitCmpCond(code wazevoapi.ExitCode) IntegerCmpCond {
+	return IntegerCmpCond(verif_ghost_map("M:exC", uint64(code)))
+}
+func ExitCmpX(code wazevoapi.ExitCode) Value { return Value(verif_ghost_map("M:exX", uint64(code))) }
+func ExitCmpY(code wazevoapi.ExitCode) Value { return Value(verif_ghost_map("M:exY", uint64(code))) }
+func isExitIf(i *Instruction) bool           { return i.opcode == OpcodeExitIfTrueWithCode }
 
 // isExitCodeCheck: an indirect call through the pointer most recently loaded from the execution context's
 // "check module exit code" trampoline slot (what close-on-context-done relies on, C07).
@@ -92,11 +107,12 @@ func b2g(b bool) int {
 //@   ensures[last] gr("lastOp") == int(raw.opcode) && gr("lastV") == int(raw.v) && gr("lastV2") == int(raw.v2) && gr("lastV3") == int(raw.v3) && gr("lastU1") == int(raw.u1) && gr("lastU2") == int(raw.u2) && gr("lastRet") == int(raw.rValue) && gr("lastTyp") == int(raw.typ)
 //@   ensures[access] (accWidth(raw) != 0 ==> gr("accW") == accWidth(raw) && gr("accOff") == int(uint32(raw.u1))) && (accWidth(raw) == 0 ==> gr("accW") == old(gr("accW")) && gr("accOff") == old(gr("accOff")))
 //@   ensures[const-map] verif_ghost_map_upd("M:isConst", uint64(raw.rValue), raw.opcode == OpcodeIconst, 1) && verif_ghost_map_upd("M:constVal", uint64(raw.rValue), raw.opcode == OpcodeIconst, raw.u1)
+//@   ensures[exits-by-code] verif_ghost_map_upd("M:exN", raw.u1, isExitIf(raw), verif_ghost_map_old("M:exN", raw.u1)+1) && verif_ghost_map_upd("M:exViaCmp", raw.u1, isExitIf(raw), uint64(old(b2g(int(raw.v2) == gr("icmpRet"))))) && verif_ghost_map_upd("M:exC", raw.u1, isExitIf(raw), uint64(old(gr("icmpC")))) && verif_ghost_map_upd("M:exX", raw.u1, isExitIf(raw), uint64(old(gr("icmpX")))) && verif_ghost_map_upd("M:exY", raw.u1, isExitIf(raw), uint64(old(gr("icmpY"))))
 //@   ensures[load-map] verif_ghost_map_upd("M:isLd", uint64(raw.rValue), raw.opcode == OpcodeLoad, 1) && verif_ghost_map_upd("M:ldPtr", uint64(raw.rValue), raw.opcode == OpcodeLoad, uint64(raw.v)) && verif_ghost_map_upd("M:ldOff", uint64(raw.rValue), raw.opcode == OpcodeLoad, raw.u1)
 //@   ensures[exit-check] gr("exitChecks") == old(gr("exitChecks")) + old(b2g(isExitCodeCheck(raw)))
 //@   ensures[oob] isOOBCheck(raw) ==> gr("oobChecks") == old(gr("oobChecks")) + 1 && gr("oobCode") == int(raw.u1) && gr("oobLen") == old(gr("icmpX")) && gr("oobAddX") == old(gr("iaddX")) && gr("oobAddY") == old(gr("iaddY")) && gr("oobArg") == old(int(verif_ghost_map("M:uextArg", uint64(gr("iaddX"))))) && gr("oobCeil") == old(int(verif_ghost_map("M:constVal", uint64(gr("iaddY"))))) && gr("oobViaExt") == old(b2g(verif_ghost_map("M:uext32", uint64(gr("iaddX"))) == 1)) && gr("oobViaConst") == old(b2g(verif_ghost_map("M:isConst", uint64(gr("iaddY"))) == 1))
 //@   ensures[not-oob] !isOOBCheck(raw) ==> gr("oobChecks") == old(gr("oobChecks")) && gr("oobCode") == old(gr("oobCode")) && gr("oobLen") == old(gr("oobLen")) && gr("oobAddX") == old(gr("oobAddX")) && gr("oobAddY") == old(gr("oobAddY")) && gr("oobArg") == old(gr("oobArg")) && gr("oobCeil") == old(gr("oobCeil")) && gr("oobViaExt") == old(gr("oobViaExt")) && gr("oobViaConst") == old(gr("oobViaConst"))
-//@   modifies raw.rValue, ghost("M:uext32"), ghost("M:uextArg"), ghost("M:isLd"), ghost("M:ldPtr"), ghost("M:ldOff"), ghost("M:isConst"), ghost("M:constVal"), ghost("accW"), ghost("accOff"), ghost("lastOp"), ghost("lastV"), ghost("lastV2"), ghost("lastV3"), ghost("lastU1"), ghost("lastU2"), ghost("lastRet"), ghost("lastTyp"), ghost("loadPtr"), ghost("loadOff"), ghost("loadRet"), ghost("exitChecks"), ghost("uextArg"), ghost("uextRet"), ghost("uextFT"), ghost("iconstVal"), ghost("iconstRet"), ghost("iaddX"), ghost("iaddY"), ghost("iaddRet"), ghost("icmpX"), ghost("icmpY"), ghost("icmpC"), ghost("icmpRet"), ghost("oobChecks"), ghost("oobCode"), ghost("oobArg"), ghost("oobCeil"), ghost("oobLen"), ghost("oobAddX"), ghost("oobAddY"), ghost("oobViaExt"), ghost("oobViaConst")
+//@   modifies raw.rValue, ghost("M:uext32"), ghost("M:uextArg"), ghost("M:isLd"), ghost("M:ldPtr"), ghost("M:ldOff"), ghost("M:isConst"), ghost("M:constVal"), ghost("M:exN"), ghost("M:exViaCmp"), ghost("M:exC"), ghost("M:exX"), ghost("M:exY"), ghost("accW"), ghost("accOff"), ghost("lastOp"), ghost("lastV"), ghost("lastV2"), ghost("lastV3"), ghost("lastU1"), ghost("lastU2"), ghost("lastRet"), ghost("lastTyp"), ghost("loadPtr"), ghost("loadOff"), ghost("loadRet"), ghost("exitChecks"), ghost("uextArg"), ghost("uextRet"), ghost("uextFT"), ghost("iconstVal"), ghost("iconstRet"), ghost("iaddX"), ghost("iaddY"), ghost("iaddRet"), ghost("icmpX"), ghost("icmpY"), ghost("icmpC"), ghost("icmpRet"), ghost("oobChecks"), ghost("oobCode"), ghost("oobArg"), ghost("oobCeil"), ghost("oobLen"), ghost("oobAddX"), ghost("oobAddY"), ghost("oobViaExt"), ghost("oobViaConst")
 
 // (pure helpers, given a frame so that callers deep in an inlined chain keep the ghost registers)
 //@ func (v Value) Type() Type
